@@ -155,7 +155,7 @@ class BX:
             'sigma=2,L=4,pal=abc,stretch=1,pd=min,nf=1,maxn=3',
         ],
     }
-    DEADLINE = {'quick': 300, 'thorough': 3600}
+    DEADLINE = {'quick': 420, 'thorough': 3600}
     KINDS = {   # properties that only concern some kinds
         'C04': 'PFC+RPFC+HTFC+HHTFC+RPHTFC+RPDAC+FMINDEX+XBW',
         'C05': 'FMINDEX+XBW',
